@@ -260,10 +260,7 @@ func (srv *Session) handleCommand(ctx context.Context, conn net.Conn, t types.Cl
 		// https://github.com/postgres/postgres/blob/6e1dd2773eb60a6ab87b27b8d9391b756e904ac3/src/backend/tcop/postgres.c#L4295
 		return nil
 	case types.ClientClose:
-		// TODO: close the statement or portal
-		writer.Start(types.ServerCloseComplete) //nolint:errcheck
-		writer.End()                            //nolint:errcheck
-		return nil
+		return srv.handleClose(ctx, reader, writer)
 	case types.ClientTerminate:
 		err := srv.handleConnTerminate(ctx)
 		if err != nil {
@@ -613,6 +610,49 @@ func (srv *Session) handleExecute(ctx context.Context, reader *buffer.Reader, wr
 	}
 
 	return nil
+}
+
+// handleClose closes the prepared statement or portal with the given name. It
+// is not an error to close a name which does not exist.
+// https://www.postgresql.org/docs/current/protocol-flow.html#PROTOCOL-FLOW-EXT-QUERY
+func (srv *Session) handleClose(ctx context.Context, reader *buffer.Reader, writer *buffer.Writer) error {
+	d, err := reader.GetBytes(1)
+	if err != nil {
+		return err
+	}
+
+	name, err := reader.GetString()
+	if err != nil {
+		return err
+	}
+
+	srv.logger.Debug("incoming close request", slog.String("type", types.DescribeMessage(d[0]).String()), slog.String("name", name))
+
+	// NOTE: closing is an optional capability of a cache. Caches which do
+	// not implement a close method keep the statement or portal.
+	type closer interface {
+		Close(ctx context.Context, name string) error
+	}
+
+	switch types.DescribeMessage(d[0]) {
+	case types.DescribeStatement:
+		if cache, ok := srv.Statements.(closer); ok {
+			err = cache.Close(ctx, name)
+		}
+	case types.DescribePortal:
+		if cache, ok := srv.Portals.(closer); ok {
+			err = cache.Close(ctx, name)
+		}
+	default:
+		err = fmt.Errorf("unknown close command: %s", string(d[0]))
+	}
+
+	if err != nil {
+		return srv.extendedError(writer, err)
+	}
+
+	writer.Start(types.ServerCloseComplete)
+	return writer.End()
 }
 
 func (srv *Session) handleConnTerminate(ctx context.Context) error {
